@@ -302,7 +302,7 @@ func ruleC07R3(c *Ctx) {
 			if dependsOn(s.Val, srcLoads, 6) {
 				ok = true
 			}
-			for _, br := range fi.Guards(s.Block()) {
+			for _, br := range fi.DomGuards(s.Block()) {
 				if cond, _ := br.Cond(); cond != nil && dependsOn(cond, srcLoads, 6) {
 					ok = true
 				}
@@ -510,7 +510,7 @@ func ruleC07Complement(c *Ctx) {
 		var out []atom
 		fn := ins.Parent()
 		fi := core.Info(fn)
-		for _, br := range fi.Guards(ins.Block()) {
+		for _, br := range fi.DomGuards(ins.Block()) {
 			cond, pol := br.Cond()
 			if cond == nil {
 				continue
@@ -861,7 +861,7 @@ func ruleC07Monotone(c *Ctx) {
 					}
 					// integer high-water mark: guarded by new > old
 					raised := false
-					for _, br := range fi.Guards(x.Block()) {
+					for _, br := range fi.DomGuards(x.Block()) {
 						cond, pol := br.Cond()
 						bo, ok := cond.(*ssa.BinOp)
 						if !ok {
